@@ -210,12 +210,15 @@ func ifs(c bool, a, b string) string {
 	return b
 }
 
-type Shape struct{ Name string }
+type Shape struct {
+	Name string
+	All  []string // every option constructor named by the shapes directive
+	Use  []string // the ones present in this shape, in order
+}
 type Cex struct {
 	Text       string
 	Reproduced bool
 }
 
-func (e *Exec) applyShape(st *State, fr *Frame, s *Shape) {}
 
 var dbgN int
